@@ -1,6 +1,435 @@
-(* C11 — stub: model not yet built (the property is listed under not_applicable until it is). *)
-From Coq Require Import List ZArith Bool.
+(* Model of zap's sampling core (zapcore/sampler.go), following the Go text:
+     counters.get / fnv32a          -> [bucket], [key_of]
+     counter.IncCheckReset          -> [inc_check_reset] (sequential) and the atomic-step machine [cstep]
+     sampler.Check                  -> [check]
+     sampler.With                   -> [with_]      (copies the *counters pointer)
+     NewSamplerWithOptions          -> [new_sampler] (allocates fresh counters)
+   plus the specification ([spec_decs]: per key, cut the history into windows, number from 1,
+   keep pos <= N or every Mth after) and the wire functions [model] / [spec].
+   No proofs in this file. *)
+From Coq Require Import List ZArith Bool Lia.
+From Coq.Strings Require Import Byte.
 Import ListNotations.
 From Zap Require Import Base.Wire.
-Definition model (i : sx) : sx := SL [].
-Definition spec (i o : sx) : bool := false.
+Open Scope Z_scope.
+
+(* ------------------------------------------------------------------ *)
+(* Go's fixed-width integers, written explicitly                       *)
+Definition two32 : Z := 4294967296.
+Definition two63 : Z := 9223372036854775808.
+Definition two64 : Z := 18446744073709551616.
+Definition min64 : Z := - two63.
+Definition max64 : Z := two63 - 1.
+Definition u32 (z : Z) : Z := Z.land z (two32 - 1).   (* the low 32 bits: uint32 wrap-around *)
+Definition u64 (z : Z) : Z := z mod two64.
+Definition i64 (z : Z) : Z := (z + two63) mod two64 - two63.
+Definition in_i64 (z : Z) : bool := (min64 <=? z) && (z <=? max64).
+
+Fixpoint zlist_eqb (a b : list Z) : bool :=
+  match a, b with
+  | [], [] => true
+  | x :: a', y :: b' => Z.eqb x y && zlist_eqb a' b'
+  | _, _ => false
+  end.
+Definition is_nil_z (l : list Z) : bool := match l with [] => true | _ => false end.
+
+(* ------------------------------------------------------------------ *)
+(* fnv32a(s): hash := offset32; for each byte: hash ^= b; hash *= prime32 (uint32) *)
+Definition fnv_offset32 : Z := 2166136261.
+Definition fnv_prime32 : Z := 16777619.
+Definition fnv_step (h : Z) (b : byte) : Z := u32 (Z.lxor h (Z_of_byte b) * fnv_prime32).
+Definition fnv32a (s : bytes) : Z := fold_left fnv_step s fnv_offset32.
+Definition counters_per_level : Z := 4096.
+Definition bucket (s : bytes) : Z := fnv32a s mod counters_per_level.
+
+(* levels: zapcore.Level is an int8; _minLevel = DebugLevel = -1, _maxLevel = FatalLevel = 5 *)
+Definition min_level : Z := -1.
+Definition max_level : Z := 5.
+Definition level_in_range (l : Z) : bool := (l >=? min_level) && (l <=? max_level).
+
+(* a counter cell is addressed by (counters object, level index, bucket) *)
+Definition key : Type := (nat * (Z * Z))%type.
+Definition key_eqb (a b : key) : bool :=
+  Nat.eqb (fst a) (fst b) && (Z.eqb (fst (snd a)) (fst (snd b)) && Z.eqb (snd (snd a)) (snd (snd b))).
+
+(* ------------------------------------------------------------------ *)
+(* counter{resetAt atomic.Int64; counter atomic.Uint64} *)
+Record ctr := { resetAt : Z; cnt : Z }.
+
+(* IncCheckReset executed without interference (the CAS then always succeeds);
+   [C11_solo_refines] shows this is what the atomic-step machine below does for a lone thread. *)
+Definition inc_check_reset (tick : Z) (c : ctr) (tn : Z) : ctr * Z :=
+  let resetAfter := resetAt c in
+  if resetAfter >? tn then
+    let n := u64 (cnt c + 1) in                         (* c.counter.Add(1) *)
+    ({| resetAt := resetAfter; cnt := n |}, n)
+  else
+    (* c.counter.Store(1); newResetAfter := tn + tick.Nanoseconds(); CAS(resetAfter, newResetAfter); return 1 *)
+    ({| resetAt := i64 (tn + tick); cnt := 1 |}, 1).
+
+(* n > s.first && (s.thereafter == 0 || (n-s.first)%s.thereafter != 0), all uint64 *)
+Definition dropped (first thereafter n : Z) : bool :=
+  (n >? first) && ((thereafter =? 0) || negb (u64 (n - first) mod thereafter =? 0)).
+
+(* SamplingDecision bits *)
+Definition LogDropped : Z := 1.
+Definition LogSampled : Z := 2.
+
+(* configuration as passed to NewSamplerWithOptions(core, tick, first, thereafter int, SamplerHook(h)) *)
+Record cfg := { c_first : Z; c_thereafter : Z; c_tick : Z }.
+Definition s_first (c : cfg) : Z := u64 (c_first c).            (* uint64(first) *)
+Definition s_thereafter (c : cfg) : Z := u64 (c_thereafter c).  (* uint64(thereafter) *)
+
+(* a sampler value: the fields that differ between a sampler and the ones derived from it.
+   tick, first, thereafter and hook are copied verbatim by With, so they stay in [cfg]. *)
+Record sampler := { s_counts : nat (* which *counters *); s_depth : nat (* fields added to the wrapped core *) }.
+
+(* one Check call: ent.Level, ent.Message, ent.Time.UnixNano(), and the answer of the wrapped
+   core's Enabled(ent.Level) at the time of the call (an input: the enabler is not the sampler's code) *)
+Record entry := { e_core : nat; e_lvl : Z; e_msg : bytes; e_tn : Z; e_en : bool }.
+
+Record outcome := { o_hooks : list Z (* decisions passed to the hook, in call order *);
+                    o_fwd : bool    (* s.Core.Check reached, i.e. the entry goes to the wrapped core *);
+                    o_ctx : nat     (* context fields of the wrapped core it reached *) }.
+
+Definition heap : Type := key -> ctr.
+Definition upd (h : heap) (k : key) (c : ctr) : heap := fun k' => if key_eqb k' k then c else h k'.
+
+Definition key_of (counts : nat) (lvl : Z) (msg : bytes) : key := (counts, (lvl - min_level, bucket msg)).
+
+(* sampler.Check *)
+Definition check (c : cfg) (h : heap) (s : sampler) (e : entry) : heap * outcome :=
+  if negb (e_en e) then (h, {| o_hooks := []; o_fwd := false; o_ctx := 0 |})        (* return ce *)
+  else if level_in_range (e_lvl e) then
+    let k := key_of (s_counts s) (e_lvl e) (e_msg e) in
+    let '(c', n) := inc_check_reset (c_tick c) (h k) (e_tn e) in
+    if dropped (s_first c) (s_thereafter c) n
+    then (upd h k c', {| o_hooks := [LogDropped]; o_fwd := false; o_ctx := 0 |})
+    else (upd h k c', {| o_hooks := [LogSampled]; o_fwd := true; o_ctx := s_depth s |})
+  else (h, {| o_hooks := []; o_fwd := true; o_ctx := s_depth s |}).                  (* s.Core.Check(ent, ce) *)
+
+Inductive op :=
+| Log (e : entry)
+| With (parent : nat)     (* cores[parent].With(one field): a new core value *)
+| NewRoot.                (* NewSamplerWithOptions over the same wrapped core: fresh counters *)
+
+Record st := { cores : list sampler; nalloc : nat; hp : heap }.
+
+Definition sampler0 : sampler := {| s_counts := 0; s_depth := 0 |}.
+Definition with_ (s : sampler) : sampler := {| s_counts := s_counts s; s_depth := S (s_depth s) |}.
+Definition new_sampler (n : nat) : sampler := {| s_counts := n; s_depth := 0 |}.
+
+Definition step (c : cfg) (s : st) (o : op) : st * list outcome :=
+  match o with
+  | Log e =>
+      let '(h', oc) := check c (hp s) (nth (e_core e) (cores s) sampler0) e in
+      ({| cores := cores s; nalloc := nalloc s; hp := h' |}, [oc])
+  | With p =>
+      ({| cores := cores s ++ [with_ (nth p (cores s) sampler0)]; nalloc := nalloc s; hp := hp s |}, [])
+  | NewRoot =>
+      ({| cores := cores s ++ [new_sampler (nalloc s)]; nalloc := S (nalloc s); hp := hp s |}, [])
+  end.
+
+Fixpoint run (c : cfg) (s : st) (ops : list op) : list outcome :=
+  match ops with
+  | [] => []
+  | o :: r => let '(s', oc) := step c s o in oc ++ run c s' r
+  end.
+
+(* newCounters(): after the fix every cell starts with resetAt = math.MinInt64 ("no window yet");
+   the original code left the zero value, i.e. a window ending at the Unix epoch. *)
+Definition ctr0 : ctr := {| resetAt := min64; cnt := 0 |}.
+Definition ctr0_orig : ctr := {| resetAt := 0; cnt := 0 |}.
+Definition init_gen (c0 : ctr) : st := {| cores := [sampler0]; nalloc := 1; hp := fun _ => c0 |}.
+Definition init : st := init_gen ctr0.
+Definition init_orig : st := init_gen ctr0_orig.
+
+Definition outcomes (c : cfg) (ops : list op) : list outcome := run c init ops.
+Definition outcomes_orig (c : cfg) (ops : list op) : list outcome := run c init_orig ops.
+
+(* ------------------------------------------------------------------ *)
+(* Specification (does not mention counters, resetAt, or the code's arithmetic)               *)
+
+(* which sampler family a core belongs to: cores derived by With belong to their parent's family *)
+Record rentry := { r_root : nat; r_depth : nat; r_lvl : Z; r_msg : bytes; r_tn : Z; r_en : bool }.
+Fixpoint resolve_from (fam : list (nat * nat)) (nroots : nat) (ops : list op) : list rentry :=
+  match ops with
+  | [] => []
+  | Log e :: r =>
+      let '(root, depth) := nth (e_core e) fam (0%nat, 0%nat) in
+      {| r_root := root; r_depth := depth; r_lvl := e_lvl e; r_msg := e_msg e; r_tn := e_tn e; r_en := e_en e |}
+      :: resolve_from fam nroots r
+  | With p :: r => let '(root, depth) := nth p fam (0%nat, 0%nat) in resolve_from (fam ++ [(root, S depth)]) nroots r
+  | NewRoot :: r => resolve_from (fam ++ [(nroots, 0%nat)]) (S nroots) r
+  end.
+Definition resolve (ops : list op) : list rentry := resolve_from [(0%nat, 0%nat)] 1 ops.
+
+Inductive cls := CSkip | CPass | CKey (k : key).
+Definition classify (e : rentry) : cls :=
+  if negb (r_en e) then CSkip
+  else if level_in_range (r_lvl e) then CKey (r_root e, (r_lvl e - min_level, bucket (r_msg e)))
+  else CPass.
+(* an entry as the specification sees it: its class (computed once), its stamp, and the context
+   depth of the core it was logged through *)
+Record sentry := { se_cls : cls; se_tn : Z; se_depth : nat }.
+Definition classify_entry (e : rentry) : sentry :=
+  {| se_cls := classify e; se_tn := r_tn e; se_depth := r_depth e |}.
+Definition has_key (k : key) (e : sentry) : bool :=
+  match se_cls e with CKey k' => key_eqb k' k | _ => false end.
+(* timestamps of the earlier entries that count against budget [k] *)
+Definition hist (k : key) (pre : list sentry) : list Z := map se_tn (filter (has_key k) pre).
+
+(* window state of one budget: None = no window opened yet; Some (end, n) = window ending at [end]
+   with n entries so far.  An entry stamped before [end] joins the window, any other opens a new one
+   ending one tick after its own stamp. *)
+Definition wstep (tick : Z) (w : option (Z * Z)) (t : Z) : option (Z * Z) :=
+  match w with
+  | Some (e, p) => if t <? e then Some (e, p + 1) else Some (t + tick, 1)
+  | None => Some (t + tick, 1)
+  end.
+Definition wstate (tick : Z) (h : list Z) : option (Z * Z) := fold_left (wstep tick) h None.
+Definition wpos (w : option (Z * Z)) : Z := match w with Some (_, p) => p | None => 0 end.
+(* position (from 1) of an entry stamped [t] inside its window, given the earlier stamps [h] *)
+Definition pos_after (tick : Z) (h : list Z) (t : Z) : Z := wpos (wstep tick (wstate tick h) t).
+
+(* first N, then every Mth (none if M = 0) *)
+Definition keeps (N M pos : Z) : bool :=
+  (pos <=? N) || (negb (M =? 0) && ((pos - N) mod M =? 0)).
+
+Inductive dec := DSkip | DPass | DKeep | DDrop.
+Definition spec_dec (c : cfg) (pre : list sentry) (e : sentry) : dec :=
+  match se_cls e with
+  | CSkip => DSkip
+  | CPass => DPass
+  | CKey k => if keeps (c_first c) (c_thereafter c) (pos_after (c_tick c) (hist k pre) (se_tn e)) then DKeep else DDrop
+  end.
+Fixpoint spec_decs (c : cfg) (pre : list sentry) (es : list sentry) : list dec :=
+  match es with
+  | [] => []
+  | e :: r => spec_dec c pre e :: spec_decs c (pre ++ [e]) r
+  end.
+
+(* what each decision means at the two observation points *)
+Definition outcome_of (d : dec) (depth : nat) : outcome :=
+  match d with
+  | DSkip => {| o_hooks := []; o_fwd := false; o_ctx := 0 |}
+  | DPass => {| o_hooks := []; o_fwd := true; o_ctx := depth |}
+  | DKeep => {| o_hooks := [LogSampled]; o_fwd := true; o_ctx := depth |}
+  | DDrop => {| o_hooks := [LogDropped]; o_fwd := false; o_ctx := 0 |}
+  end.
+Fixpoint outcomes_of (ds : list dec) (es : list sentry) : list outcome :=
+  match ds, es with
+  | d :: ds', e :: es' => outcome_of d (se_depth e) :: outcomes_of ds' es'
+  | _, _ => []
+  end.
+Definition sentries (ops : list op) : list sentry := map classify_entry (resolve ops).
+Definition spec_outcomes (c : cfg) (ops : list op) : list outcome :=
+  let es := sentries ops in outcomes_of (spec_decs c [] es) es.
+
+Definition dec_of_bool (b : bool) : dec := if b then DKeep else DDrop.
+
+(* the "cut into windows, number from 1" reading of [wstep], for one budget (see Proofs.spec_window) *)
+Fixpoint take_window (end_ : Z) (ts : list Z) : list Z * list Z :=
+  match ts with
+  | t :: r => if t <? end_ then let '(w, rest) := take_window end_ r in (t :: w, rest) else ([], ts)
+  | [] => ([], [])
+  end.
+Fixpoint number (N M : Z) (pos : Z) (w : list Z) : list bool :=
+  match w with [] => [] | _ :: r => keeps N M pos :: number N M (pos + 1) r end.
+(* decisions for the stamps [ts] of one budget whose window state is [w] *)
+Fixpoint key_decs (N M tick : Z) (w : option (Z * Z)) (ts : list Z) : list bool :=
+  match ts with
+  | [] => []
+  | t :: r => let w' := wstep tick w t in keeps N M (wpos w') :: key_decs N M tick w' r
+  end.
+
+(* hypotheses of the theorems: Go's typing of the arguments plus the two no-overflow conditions *)
+Definition wf_cfg (c : cfg) : bool :=
+  (0 <=? c_first c) && (c_first c <=? max64) && (0 <=? c_thereafter c) && (c_thereafter c <=? max64) && in_i64 (c_tick c).
+Definition wf_entry (c : cfg) (e : entry) : bool :=
+  in_i64 (e_tn e) && in_i64 (e_tn e + c_tick c).      (* no_overflow: tn + tick fits in int64 *)
+Fixpoint wf_ops (c : cfg) (ncores : nat) (ops : list op) : bool :=
+  match ops with
+  | [] => true
+  | Log e :: r => Nat.ltb (e_core e) ncores && wf_entry c e && wf_ops c ncores r
+  | With p :: r => Nat.ltb p ncores && wf_ops c (S ncores) r
+  | NewRoot :: r => wf_ops c (S ncores) r
+  end.
+(* the uint64 entry counter cannot wrap: fewer than 2^64 calls *)
+Definition wf_len (ops : list op) : bool := Z.of_nat (length ops) <? two64.
+Definition wf_run (c : cfg) (ops : list op) : bool := wf_cfg c && wf_ops c 1 ops && wf_len ops.
+
+(* ------------------------------------------------------------------ *)
+(* Atomic-step machine for goroutines inside Check on ONE counter cell:
+   Load / Add / Store / CAS of IncCheckReset are separate steps; then hook; then forward. *)
+Inductive pc :=
+| PLoad                (* about to: resetAfter := c.resetAt.Load() *)
+| PAdd                 (* about to: return c.counter.Add(1)  (either occurrence) *)
+| PStore (ra : Z)      (* about to: c.counter.Store(1) *)
+| PCas (ra : Z)        (* about to: c.resetAt.CompareAndSwap(resetAfter, tn + tick) *)
+| PGot (n : Z)         (* IncCheckReset returned n; about to evaluate the predicate and call the hook *)
+| PFwd                 (* hook(ent, LogSampled) done; about to: s.Core.Check(ent, ce) *)
+| PDone.
+Record thr := { t_tn : Z; t_pc : pc;
+                t_ret : option Z      (* ghost: value returned by IncCheckReset *);
+                t_hooks : list Z      (* hook calls made for this entry *);
+                t_fwd : nat           (* times this entry reached the wrapped core *) }.
+Record cst := { g_reset : Z; g_cnt : Z; g_thr : list thr }.
+
+Fixpoint set_nth {A} (l : list A) (i : nat) (a : A) : list A :=
+  match l, i with
+  | [], _ => []
+  | _ :: r, O => a :: r
+  | x :: r, S j => x :: set_nth r j a
+  end.
+
+Definition cstep (c : cfg) (s : cst) (i : nat) : cst :=
+  match nth_error (g_thr s) i with
+  | None => s
+  | Some t =>
+      let put (t' : thr) := set_nth (g_thr s) i t' in
+      let at_pc (p : pc) := {| t_tn := t_tn t; t_pc := p; t_ret := t_ret t; t_hooks := t_hooks t; t_fwd := t_fwd t |} in
+      match t_pc t with
+      | PLoad =>
+          let ra := g_reset s in
+          {| g_reset := g_reset s; g_cnt := g_cnt s;
+             g_thr := put (at_pc (if ra >? t_tn t then PAdd else PStore ra)) |}
+      | PAdd =>
+          let n := u64 (g_cnt s + 1) in
+          {| g_reset := g_reset s; g_cnt := n;
+             g_thr := put {| t_tn := t_tn t; t_pc := PGot n; t_ret := Some n; t_hooks := t_hooks t; t_fwd := t_fwd t |} |}
+      | PStore ra =>
+          {| g_reset := g_reset s; g_cnt := 1; g_thr := put (at_pc (PCas ra)) |}
+      | PCas ra =>
+          if g_reset s =? ra
+          then {| g_reset := i64 (t_tn t + c_tick c); g_cnt := g_cnt s;
+                  g_thr := put {| t_tn := t_tn t; t_pc := PGot 1; t_ret := Some 1; t_hooks := t_hooks t; t_fwd := t_fwd t |} |}
+          else {| g_reset := g_reset s; g_cnt := g_cnt s; g_thr := put (at_pc PAdd) |}
+      | PGot n =>
+          if dropped (s_first c) (s_thereafter c) n
+          then {| g_reset := g_reset s; g_cnt := g_cnt s;
+                  g_thr := put {| t_tn := t_tn t; t_pc := PDone; t_ret := t_ret t; t_hooks := t_hooks t ++ [LogDropped]; t_fwd := t_fwd t |} |}
+          else {| g_reset := g_reset s; g_cnt := g_cnt s;
+                  g_thr := put {| t_tn := t_tn t; t_pc := PFwd; t_ret := t_ret t; t_hooks := t_hooks t ++ [LogSampled]; t_fwd := t_fwd t |} |}
+      | PFwd =>
+          {| g_reset := g_reset s; g_cnt := g_cnt s;
+             g_thr := put {| t_tn := t_tn t; t_pc := PDone; t_ret := t_ret t; t_hooks := t_hooks t; t_fwd := S (t_fwd t) |} |}
+      | PDone => s
+      end
+  end.
+(* a schedule is the list of thread ids that take the next atomic step *)
+Definition crun (c : cfg) (s : cst) (sched : list nat) : cst := fold_left (cstep c) sched s.
+Definition thr0 (tn : Z) : thr := {| t_tn := tn; t_pc := PLoad; t_ret := None; t_hooks := []; t_fwd := 0 |}.
+Definition cinit (R cn : Z) (tns : list Z) : cst := {| g_reset := R; g_cnt := cn; g_thr := map thr0 tns |}.
+Definition is_done (t : thr) : bool := match t_pc t with PDone => true | _ => false end.
+Definition all_done (s : cst) : bool := forallb is_done (g_thr s).
+Definition rets (l : list thr) : list Z := flat_map (fun t => match t_ret t with Some n => [n] | None => [] end) l.
+Definition all_hooks (l : list thr) : list Z := flat_map t_hooks l.
+Definition total_fwd (l : list thr) : nat := fold_right (fun t a => (t_fwd t + a)%nat) 0%nat l.
+Fixpoint zseq (start : Z) (len : nat) : list Z :=
+  match len with O => [] | S n => start :: zseq (start + 1) n end.
+Definition count_true (l : list bool) : nat := length (filter (fun b => b) l).
+Definition decision (c : cfg) (n : Z) : Z := if dropped (s_first c) (s_thereafter c) n then LogDropped else LogSampled.
+(* per-entry accounting: what may be observed of one entry at each point of its Check call *)
+Definition acct_ok (c : cfg) (t : thr) : bool :=
+  match t_pc t, t_ret t with
+  | PLoad, None | PAdd, None | PStore _, None | PCas _, None => is_nil_z (t_hooks t) && Nat.eqb (t_fwd t) 0
+  | PGot n, Some m => Z.eqb n m && is_nil_z (t_hooks t) && Nat.eqb (t_fwd t) 0
+  | PFwd, Some m => negb (dropped (s_first c) (s_thereafter c) m) && zlist_eqb (t_hooks t) [LogSampled] && Nat.eqb (t_fwd t) 0
+  | PDone, Some m =>
+      if dropped (s_first c) (s_thereafter c) m
+      then zlist_eqb (t_hooks t) [LogDropped] && Nat.eqb (t_fwd t) 0
+      else zlist_eqb (t_hooks t) [LogSampled] && Nat.eqb (t_fwd t) 1
+  | _, _ => false
+  end.
+
+(* ------------------------------------------------------------------ *)
+(* Wire.
+   sequential case  (0 N M tick (op ...))
+   concurrent case  (1 N M tick (op ...) (op ...))   -- prefix run sequentially, then the batch (Log ops of
+                                                        one budget, all stamped inside its open window) run by
+                                                        concurrent goroutines
+   op = (0 core lvl #msg tn en) | (1 parent) | (2)
+   observation, sequential: ( ((hook ...) fwd ctx) ... )  one per Log op
+   observation, concurrent: ( <prefix observation>  ( ((hook ...) fwd) ... ) )  batch records in canonical
+                                                        order (forwarded first): schedule-independent iff the
+                                                        per-entry accounting holds and the kept count is exact *)
+Definition dec_op (s : sx) : op :=
+  match sx_z (sx_nth s 0) with
+  | 0 => Log {| e_core := sx_n (sx_nth s 1); e_lvl := sx_z (sx_nth s 2); e_msg := sx_b (sx_nth s 3);
+                e_tn := sx_z (sx_nth s 4); e_en := sx_bool (sx_nth s 5) |}
+  | 1 => With (sx_n (sx_nth s 1))
+  | _ => NewRoot
+  end.
+Definition dec_cfg (i : sx) : cfg :=
+  {| c_first := sx_z (sx_nth i 1); c_thereafter := sx_z (sx_nth i 2); c_tick := sx_z (sx_nth i 3) |}.
+Definition dec_ops (s : sx) : list op := map dec_op (sx_l s).
+Definition is_conc (i : sx) : bool := sx_z (sx_nth i 0) =? 1.
+
+Definition enc_outcome (o : outcome) : sx := SL [of_zlist (o_hooks o); of_bool (o_fwd o); of_nat (o_ctx o)].
+Definition enc_short (o : outcome) : sx := SL [of_zlist (o_hooks o); of_bool (o_fwd o)].
+Definition canon (l : list outcome) : list outcome := filter o_fwd l ++ filter (fun o => negb (o_fwd o)) l.
+Definition is_log (o : op) : bool := match o with Log _ => true | _ => false end.
+Definition n_logs (ops : list op) : nat := length (filter is_log ops).
+
+Definition enc_obs (conc : bool) (npre : nat) (outs : list outcome) : sx :=
+  if conc then SL [SL (map enc_outcome (firstn npre outs)); SL (map enc_short (canon (skipn npre outs)))]
+  else SL (map enc_outcome outs).
+
+Definition model (i : sx) : sx :=
+  let c := dec_cfg i in
+  let pre := dec_ops (sx_nth i 4) in
+  if is_conc i then enc_obs true (n_logs pre) (outcomes c (pre ++ dec_ops (sx_nth i 5)))
+  else enc_obs false 0 (outcomes c pre).
+
+(* the batch lies inside one open window of one budget *)
+Definition batch_in_window (c : cfg) (pre batch : list op) : bool :=
+  forallb is_log batch &&
+  match skipn (n_logs pre) (sentries (pre ++ batch)) with
+  | [] => true
+  | (e0 :: _) as bes =>
+      match se_cls e0 with
+      | CKey k =>
+          match wstate (c_tick c) (hist k (sentries pre)) with
+          | Some (end_, _) => forallb (fun e => has_key k e && (se_tn e <? end_)) bes
+          | None => false
+          end
+      | _ => false
+      end
+  end.
+
+Definition wf (i : sx) : bool :=
+  let c := dec_cfg i in
+  let pre := dec_ops (sx_nth i 4) in
+  if is_conc i then let batch := dec_ops (sx_nth i 5) in wf_run c (pre ++ batch) && batch_in_window c pre batch
+  else wf_run c pre.
+
+(* what the specification prescribes for a concurrent batch inside the open window of budget k:
+   as many kept records as the one-pass window numbering keeps for that many further entries
+   (C11_atomic_exact: the order of arrival is irrelevant), in canonical order *)
+Definition conc_expected (c : cfg) (pre batch : list op) : list outcome :=
+  match skipn (n_logs pre) (sentries (pre ++ batch)) with
+  | [] => []
+  | (e0 :: _) as bes =>
+      match se_cls e0 with
+      | CKey k =>
+          canon (map (fun b => outcome_of (dec_of_bool b) 0)
+                     (key_decs (c_first c) (c_thereafter c) (c_tick c)
+                               (wstate (c_tick c) (hist k (sentries pre))) (map se_tn bes)))
+      | _ => []
+      end
+  end.
+
+(* the oracle: the observation is what the specification prescribes.  Cases outside the theorems'
+   hypotheses (tn + tick overflowing int64 etc.) are only compared model-vs-implementation. *)
+Definition spec (i o : sx) : bool :=
+  let c := dec_cfg i in
+  let pre := dec_ops (sx_nth i 4) in
+  if is_conc i then
+    let batch := dec_ops (sx_nth i 5) in
+    if negb (wf_run c (pre ++ batch)) then true
+    else batch_in_window c pre batch &&
+         sx_eqb o (SL [SL (map enc_outcome (spec_outcomes c pre)); SL (map enc_short (conc_expected c pre batch))])
+  else
+    if negb (wf_run c pre) then true
+    else sx_eqb o (enc_obs false 0 (spec_outcomes c pre)).
